@@ -435,12 +435,7 @@ func checkCase(c sqlCase) (o pbt.Outcome) {
 	var ns *server.Namespace
 	var err error
 	if p := pbt.Catch(func() { ns, err = newNS(baseText) }); p != "" {
-		detail := fmt.Sprintf("NewNamespace with black_sql %q panicked: %s", baseText, p)
-		if id := classifyPanic(c.Base, p); id != "" {
-			o.Known, o.KnownWhat = id, detail
-			return
-		}
-		o.Violation = detail
+		o.Violation = fmt.Sprintf("NewNamespace with black_sql %q panicked: %s", baseText, p)
 		return
 	}
 	if err != nil {
@@ -471,10 +466,6 @@ func checkCase(c sqlCase) (o pbt.Outcome) {
 		r, p := rejected(variant)
 		if p != "" {
 			detail := fmt.Sprintf("IsSQLAllowed(%q) panicked: %s", variant, p)
-			if id := classifyPanic(target, p); id != "" {
-				o.Known, o.KnownWhat = id, detail
-				return
-			}
 			o.Violation = detail
 			return
 		}
@@ -535,10 +526,6 @@ func checkCase(c sqlCase) (o pbt.Outcome) {
 	r, p := rejected(variant)
 	if p != "" {
 		detail := fmt.Sprintf("IsSQLAllowed(%q) panicked: %s", variant, p)
-		if id := classifyPanic(target, p); id != "" {
-			o.Known, o.KnownWhat = id, detail
-			return
-		}
 		o.Violation = detail
 		return
 	}
